@@ -248,6 +248,23 @@ def run_check(prop, modname, tier, seed=0, only=None, nproc=None, verbose=False)
         if not any(w in got for w in want):
             cov_missing.append(f"{relfile}: `{snippet}` never executed")
 
+    # ---- second engine (CrossHair) on float-free slices, where a harness declares one
+    second = None
+    xc = meta.get("crosscheck")
+    if xc and not only:
+        import subprocess
+        t1 = time.time()
+        try:
+            pr = subprocess.run([sys.executable, "-m", "crosshair", "check", "--report_all", "--per_condition_timeout", str(xc.get("timeout", 60)),
+                                 os.path.join(VERIF, xc["file"])], capture_output=True, text=True, timeout=xc.get("timeout", 60) * xc.get("conditions", 2) + 60)
+            txt = pr.stdout + pr.stderr
+        except Exception as e:  # noqa
+            txt = "crosshair failed to run: %r" % (e,)
+        confirmed = txt.count("Confirmed over all paths")
+        cex = [l for l in txt.splitlines() if ": error:" in l]
+        second = {"engine": "crosshair-tool", "file": xc["file"], "conditions": xc.get("conditions"), "confirmed_over_all_paths": confirmed,
+                  "counterexamples": cex[:3], "wall_s": round(time.time() - t1, 1)}
+
     # ---- verdict
     rc = 0
     out = []
@@ -285,6 +302,11 @@ def run_check(prop, modname, tier, seed=0, only=None, nproc=None, verbose=False)
         inconclusive.append("vacuity: " + "; ".join(vac))
     if cov_missing:
         inconclusive.append("must-cover: " + "; ".join(cov_missing))
+    if second is not None:
+        if second["counterexamples"] and not fresh:
+            inconclusive.append("second engine (CrossHair) reports a counterexample that SymX did not: " + second["counterexamples"][0][:200])
+        elif second["confirmed_over_all_paths"] != second["conditions"] and not fresh and not second["counterexamples"]:
+            inconclusive.append("second engine (CrossHair) did not confirm all %s conditions (%s confirmed)" % (second["conditions"], second["confirmed_over_all_paths"]))
     if rc == 0 and inconclusive:
         rc = 2
 
@@ -327,6 +349,7 @@ def run_check(prop, modname, tier, seed=0, only=None, nproc=None, verbose=False)
             "float_boundary_divergences": total.witness_float_div,
             "false_twin_violated": twin_ok,
             "known_findings_present": sorted(known_hits),
+            "second_engine": second,
             "inconclusive_reasons": inconclusive,
             "replays": replay_paths,
             "engine": "SymX (z3 %s) on CPython %s" % (_z3v(), sys.version.split()[0]),
